@@ -176,6 +176,37 @@ namespace {
 
 }  // namespace
 
+namespace {
+  /*!
+   * runs `f` in a forked child.  returns 0: normal value agreeing (child exit 0), 1: exception,
+   * 2: wrong value, >= 100: killed by signal (100 + signal)
+   */
+  int forked(const std::function<int()>& f) {
+    std::fflush(nullptr);
+    const pid_t pid = ::fork();
+    if (pid == 0) {
+      for (int sig : {SIGSEGV, SIGBUS, SIGFPE, SIGILL, SIGABRT}) std::signal(sig, SIG_DFL);
+      // silence glibc's "double free or corruption" message
+      const int fd = ::open("/dev/null", 1);
+      if (fd >= 0) {
+        ::dup2(fd, 2);
+      }
+      int r = 3;
+      try {
+        r = f();
+      } catch (...) {
+        r = 1;
+      }
+      ::_exit(r);
+    }
+    int status = 0;
+    ::waitpid(pid, &status, 0);
+    if (WIFSIGNALED(status)) return 100 + WTERMSIG(status);
+    return WEXITSTATUS(status);
+  }
+}  // namespace
+
+
 // ---------------------------------------------------------------- value
 VERIF_SUB(value) {
   east::GenOptions o;
@@ -311,6 +342,7 @@ VERIF_SUB_W(deps, 0.5) {
   }
   tagShape(c, f);
   if (g.avoidedNestedCalls > 0) c.tag("excluded_known.deps_nested_same_function(replaced by a leaf)");
+  if (g.avoidedIntegerExponents > 0) c.tag("excluded_known.deps_integer_exponent_parameter(+0.25)");
   c.nontrivial(f.shape.depth >= 3 && (!f.shape.pars.empty() || f.shape.hasCall));
   if (f.shape.hasCall) c.tag("deps.call");
   if (!f.shape.pars.empty()) c.tag("deps.parameter");
@@ -407,6 +439,90 @@ VERIF_SUB_W(deps, 0.5) {
   }
 }
 
+// ------- findings on the (undocumented) diff(f, v) construct
+namespace {
+  //! draws f(x,y) differentiable, returns text of f and d f / d x_k at the point
+  struct DiffCase {
+    std::string ftext;
+    std::vector<double> x;
+    E ref;
+    int k = 0;
+  };
+  DiffCase drawDiff(verif::Case& c, const bool yFirst) {
+    east::GenOptions o;
+    o.nvars = 2;
+    o.csts = &constants();
+    o.differentiableOnly = true;
+    o.allowCond = false;
+    o.maxDepth = 4;
+    o.maxNodes = 16;
+    east::Generator g(c, o);
+    g.drawPoint();
+    auto vx = g.mk(east::K::Var);
+    vx->id = 0;
+    auto vy = g.mk(east::K::Var);
+    vy->id = 1;
+    g.finish(vx);
+    g.finish(vy);
+    // y appears before x; both variables matter: y * x * x + gen
+    east::NP root = yFirst ? g.binary(east::K::Mul, g.binary(east::K::Mul, vy, vx), vx) : g.binary(east::K::Mul, g.binary(east::K::Mul, vx, vx), vy);
+    root = g.tame(g.binary(east::K::Add, root, g.gen(static_cast<int>(c.integer(1, 3, "depth")))));
+    DiffCase d;
+    east::PrintOptions po;
+    po.varnames = {"x", "y"};
+    po.csts = &constants();
+    east::Printer pr(po);
+    d.ftext = east::join(pr.expr(*root), 0, 0);
+    d.x = g.x;
+    d.k = static_cast<int>(c.pick(2, "k"));
+    std::vector<east::Dual<E>> v;
+    for (int i = 0; i != 2; ++i) v.push_back({E{static_cast<R>(g.x[i]), 0}, E{i == d.k ? R(1) : R(0), 0}});
+    east::Env<east::Dual<E>> env;
+    env.vars = v;
+    env.csts = &constants();
+    try {
+      d.ref = east::eval<east::Dual<E>>(*root, env).d;
+    } catch (const east::Ill&) {
+      c.discard();
+    }
+    return d;
+  }
+}  // namespace
+
+VERIF_SUB_W(diff_order, 0.02) {
+  const auto d = drawDiff(c, true);
+  const std::string text = "diff(" + d.ftext + "," + (d.k == 0 ? "x" : "y") + ")";
+  c.nontrivial(true);
+  c.tag("diff.variables_not_in_alphabetical_order");
+  try {
+    Evaluator ev(text);  // variables registered in order of appearance: y, x
+    ev.setVariableValue("x", d.x[0]);
+    ev.setVariableValue("y", d.x[1]);
+    c.close(ev.getValue(), d.ref.v, 4096 * d.ref.e + TINY, "C13.diff.variable_order",
+            "'" + text + "' at x=" + dbl(d.x[0]) + " y=" + dbl(d.x[1]));
+  } catch (const std::exception& e) {
+    c.check(false, "C13.diff.exception", "'" + text + "': " + e.what());
+  }
+}
+
+VERIF_SUB_W(diff_copy, 0.02) {
+  const auto d = drawDiff(c, false);
+  const std::string text = "diff(" + d.ftext + "," + (d.k == 0 ? "x" : "y") + ")";
+  c.nontrivial(true);
+  c.tag("diff.copy");
+  const R tol = 4096 * d.ref.e + TINY;
+  const int r = forked([&]() {
+    Evaluator ev(std::vector<std::string>{"x", "y"}, text);
+    Evaluator copy(ev);
+    copy.setVariableValue("x", d.x[0]);
+    copy.setVariableValue("y", d.x[1]);
+    const double v = copy.getValue();
+    return fabsl(v - d.ref.v) <= tol ? 0 : 2;
+  });
+  c.check(r < 100, "C13.diff.copy.crash", "copy of Evaluator('" + text + "') then getValue: the process is killed by signal " + std::to_string(r - 100));
+  c.check(r == 0, "C13.diff.copy.value", "copy of Evaluator('" + text + "') then getValue: " + (r == 1 ? "exception" : "wrong value"));
+}
+
 // ------- known finding: f(a, f(b,c)) with f an external function
 VERIF_SUB_W(deps_reentrant, 0.02) {
   using namespace tfel::math::parser;
@@ -469,6 +585,57 @@ VERIF_SUB_W(deps_reentrant, 0.02) {
     c.close(ev.getValue(), ref.v, tolOf(ref), "C13.deps.nested_same_function", "'" + text + "' with fctA(u,v):=" + btext + " at x=" + dbl(g.x[0]));
   } catch (const std::exception& e) {
     c.check(false, "C13.deps.exception", "'" + text + "' with fctA(u,v):=" + btext + ": " + e.what());
+  }
+}
+
+// ------- known finding: a ** p, p an external parameter holding an integer
+VERIF_SUB_W(deps_intexp, 0.02) {
+  using namespace tfel::math::parser;
+  auto manager = std::make_shared<ExternalFunctionManager>();
+  const int n = static_cast<int>(c.integer(-16, 16, "n"));
+  (*manager)["p"] = std::make_shared<Evaluator>(static_cast<double>(n));
+  east::GenOptions o;
+  o.csts = &constants();
+  o.nvars = 1;
+  o.npars = 1;
+  o.maxDepth = 3;
+  o.maxNodes = 10;
+  o.allowCond = false;
+  east::Generator g(c, o);
+  g.drawPoint();
+  g.p = {static_cast<double>(n)};
+  auto par = g.mk(east::K::Par);
+  par->id = 0;
+  auto root = g.binary(east::K::Pow, g.fit(g.gen(2), 0.5, 3), g.finish(par));
+  if (c.boolean("more")) root = g.binary(east::K::Add, root, g.gen(2));
+  east::PrintOptions po;
+  po.varnames = {"x"};
+  po.parnames = {"p"};
+  po.csts = &constants();
+  east::Printer pr(po);
+  const auto text = east::join(pr.expr(*root), 1, 0);
+  c.nontrivial(true);
+  c.tag("deps_integer_exponent_parameter");
+  const double p2 = n + c.real(0.05, 0.45, "dp");
+  E ref, ref2;
+  try {
+    ref = east::eval<E>(*root, envE(g.x, {static_cast<double>(n)}));
+    ref2 = east::eval<E>(*root, envE(g.x, {p2}));
+  } catch (const east::Ill&) {
+    c.discard();
+  }
+  const std::string ctx = "'" + text + "' at x=" + dbl(g.x[0]) + " analysed while p=" + std::to_string(n);
+  try {
+    Evaluator ev(std::vector<std::string>{"x"}, text, manager);
+    ev.setVariableValue("x", g.x[0]);
+    c.close(ev.getValue(), ref.v, tolOf(ref), "C13.deps.value", ctx);
+    auto nf = ev.createFunctionByChangingParametersIntoVariables(std::vector<std::string>{"p"});
+    nf->setVariableValue(0, g.x[0]);
+    nf->setVariableValue(1, p2);
+    c.close(nf->getValue(), ref2.v, tolOf(ref2), "C13.deps.integer_exponent_parameter",
+            ctx + ": createFunctionByChangingParametersIntoVariables({p}) evaluated at p=" + dbl(p2));
+  } catch (const std::exception& e) {
+    c.check(false, "C13.deps.integer_exponent_parameter", ctx + ": " + e.what());
   }
 }
 
@@ -640,36 +807,6 @@ namespace {
 VERIF_SUB_W(cxx, 0.01) { cxxBatch(c, 8, false, false); }
 
 // ---------------------------------------------- known finding: `a + -b`
-namespace {
-  /*!
-   * runs `f` in a forked child.  returns 0: normal value agreeing (child exit 0), 1: exception,
-   * 2: wrong value, >= 100: killed by signal (100 + signal)
-   */
-  int forked(const std::function<int()>& f) {
-    std::fflush(nullptr);
-    const pid_t pid = ::fork();
-    if (pid == 0) {
-      for (int sig : {SIGSEGV, SIGBUS, SIGFPE, SIGILL, SIGABRT}) std::signal(sig, SIG_DFL);
-      // silence glibc's "double free or corruption" message
-      const int fd = ::open("/dev/null", 1);
-      if (fd >= 0) {
-        ::dup2(fd, 2);
-      }
-      int r = 3;
-      try {
-        r = f();
-      } catch (...) {
-        r = 1;
-      }
-      ::_exit(r);
-    }
-    int status = 0;
-    ::waitpid(pid, &status, 0);
-    if (WIFSIGNALED(status)) return 100 + WTERMSIG(status);
-    return WEXITSTATUS(status);
-  }
-}  // namespace
-
 VERIF_SUB_W(plus_neg, 0.02) {
   // a + -b : the reducer accepts a unary minus after a binary + (TGroup::reduce)
   east::GenOptions o;
